@@ -8,7 +8,7 @@ from common import hx
 from fakesock import FakeSocketModule, World, mk_exc
 from refserver import RefServer
 
-# every public data operation, single- and multi-key, noreply on/off
+# every public data operation, single- and multi-key, noreply on/off; then stats / cache_memlimit / shutdown
 OPS = [
     {"op": "set", "k": "a", "v": b"1", "nr": False}, {"op": "set", "k": "a", "v": b"22", "nr": True},
     {"op": "add", "k": "b", "v": b"x", "nr": False}, {"op": "replace", "k": "a", "v": b"3", "nr": False},
@@ -27,6 +27,10 @@ OPS = [
     {"op": "incr", "k": "a", "d": 1, "nr": None}, {"op": "decr", "k": "a", "d": 1, "nr": None}, {"op": "set", "k": "a", "v": b"9", "nr": None},
     {"op": "delete", "k": "a", "nr": None}, {"op": "touch", "k": "a", "e": 5, "nr": None}, {"op": "cas", "k": "a", "v": b"6", "cas": b"1", "nr": None},
     {"op": "delete_many", "ks": ["a", "b"], "nr": None}, {"op": "set_many", "items": [("a", b"1"), ("b", b"2")], "nr": None}, {"op": "flush_all", "d": 0, "nr": None},
+    # the administrative operations (always wait for a reply; `shutdown` against a server without --enable-shutdown gets an error line,
+    # the fault scripts give it the closing server).  PooledClient has no cache_memlimit, HashClient neither that nor shutdown: AttributeError there.
+    {"op": "stats"}, {"op": "stats", "args": ("items",)}, {"op": "stats", "args": ("cachedump", "1", "1")},
+    {"op": "cache_memlimit", "m": 64}, {"op": "shutdown", "g": False}, {"op": "shutdown", "g": True},
 ]
 READ_OPS = [c for c in OPS if c["op"] in ("get", "gets", "gat", "gats", "get_many", "gets_many")]
 
